@@ -21,7 +21,10 @@ EXTENDS Integers, Sequences, FiniteSets, TLC, Json
 CONSTANTS Forms,        \* set of [name, named (BOOLEAN), nparams, probes]  (probes per parameter)
           Kinds         \* fault kinds
 
-VARIABLES sc,           \* the scenario: [form, k, kind]   (k = 0: no fault)
+VARIABLES sc,           \* the scenario: [form, k, kind, origin]   (k = 0: no fault)
+                        \* origin: where the values of the variables come from - "literal" (assigned from program text) or
+                        \* "computed" (the result of an earlier descent step v::v-0.1*v∇f0): irrelevant to the protocol, but
+                        \* an implementation may hold such a value in another representation (dtype, shared storage)
           pc,           \* "start" | "idle" | "bound" | "calling" | "returned" | "failed"
           par,          \* index of the parameter being probed
           n,            \* evaluations of the user's function so far
@@ -29,7 +32,7 @@ VARIABLES sc,           \* the scenario: [form, k, kind]   (k = 0: no fault)
 vars == <<sc, pc, par, n, held>>
 
 Total(f) == f.nparams * f.probes
-Init == /\ sc \in {[form |-> f, k |-> k, kind |-> kd] : f \in Forms, k \in 0..8, kd \in Kinds}
+Init == /\ sc \in {[form |-> f, k |-> k, kind |-> kd, origin |-> o] : f \in Forms, k \in 0..8, kd \in Kinds, o \in {"literal", "computed"}}
         /\ (sc.k = 0 <=> sc.kind = "none") /\ sc.k <= Total(sc.form)
         /\ pc = "idle" /\ par = 1 /\ n = 0 /\ held = [j \in 1..sc.form.nparams |-> "original"]
 
@@ -52,5 +55,5 @@ Next == Bind \/ Call \/ Return \/ Fail
 
 Restored == pc \in {"idle", "returned", "failed"} => \A j \in 1..sc.form.nparams : held[j] = "original"
 Finished == pc \in {"returned", "failed"}
-Emit == Finished => PrintT(ToJson([form |-> sc.form.name, k |-> sc.k, kind |-> sc.kind, evals |-> n, outcome |-> pc]))
+Emit == Finished => PrintT(ToJson([form |-> sc.form.name, k |-> sc.k, kind |-> sc.kind, origin |-> sc.origin, evals |-> n, outcome |-> pc]))
 =============================================================================
